@@ -906,7 +906,7 @@ def check(run, prog, tier):
             if n2.get("k") != "Asg":
                 continue
             L_ = strip(n2["L"])
-            if L_.get("k") != "Ref" or L_.get("d") != "local" or not any(w_ in (L_.get("t") or "") for w_ in ("long", "int64", "uint64")):
+            if L_.get("k") != "Ref" or L_.get("d") != "local":
                 continue
             if (n2.get("op") == "*=" and const_val(n2["R"]) == 10) or (n2.get("op") == "=" and any(y.get("k") == "Bin" and y.get("op") == "*" and strip(y["L"]).get("id") == L_.get("id") and const_val(y["R"]) == 10 for y in walk(n2["R"]))):
                 accs[L_["id"]] = L_.get("n")
